@@ -842,7 +842,32 @@ pub fn gen_project(seed: u64, pi: usize, gpp: usize) -> Value {
         } else {
             None
         };
+        // same-named units in a second ordinary library (different files): the linter cache is keyed by
+        // (library, primary name); exactly one of the two is edited afterwards
+        let twin = lib == "lib" && rng.chance(1, 5);
+        let mut edit = edit;
+        let mut twin_group = None;
+        if twin {
+            let rename = |fs: Vec<Value>| -> Vec<Value> {
+                fs.into_iter().map(|f| json!([format!("tw{}", &f[0].as_str().unwrap()[1..]), f[1]])).collect()
+            };
+            let (tfiles, _) = gen_group(rng.next(), gid, is_entity, split);
+            let edit_original = rng.chance(1, 2);
+            let mut tedit = None;
+            if edit_original {
+                if edit.is_none() {
+                    edit = Some(gen_group(rng.next(), gid, is_entity, split).0);
+                }
+            } else {
+                edit = None;
+                tedit = Some(rename(gen_group(rng.next(), gid, is_entity, split).0));
+            }
+            twin_group = Some(json!({"gid": gid, "lib": "lib2", "twin": true, "files": rename(tfiles), "edit": tedit, "sites": []}));
+        }
         groups.push(json!({"gid": gid, "lib": lib, "seed": gseed.to_string(), "files": files, "edit": edit, "sites": stats}));
+        if let Some(t) = twin_group {
+            groups.push(t);
+        }
     }
-    json!({"id": format!("p{}", pi), "groups": groups, "flip": pi % 3 == 0})
+    json!({"id": format!("p{}", pi), "groups": groups, "flip": pi % 3 == 0, "layered": pi % 2 == 1})
 }
